@@ -42,6 +42,7 @@ type Case struct {
 	TgtDir   bool   `json:",omitempty"`
 	Gzip     bool   `json:",omitempty"`
 	ExpRef   bool   `json:",omitempty"` // export under another name
+	Pinned   bool   `json:",omitempty"` // the exported reference (or the name override) carries tag AND digest, as "regctl image export --platform" passes it
 	Sel      string `json:",omitempty"` // tag | digest | name
 	Validate bool   `json:",omitempty"` // the target registry rejects manifests whose children are missing
 	Prepop   int    `json:",omitempty"` // percentage of blobs already at the target
@@ -357,7 +358,8 @@ func checkArchive(ents []Ent, g *imgen.Graph, wantTag, wantName string) string {
 				return "manifest.json layer file missing: " + l
 			}
 		}
-		if len(dm[0].RepoTags) != 1 || !strings.HasSuffix(dm[0].RepoTags[0], ":"+wantTag) {
+		// Docker loads "name:tag" entries only: no digest part
+		if len(dm[0].RepoTags) != 1 || !strings.HasSuffix(dm[0].RepoTags[0], ":"+wantTag) || strings.Contains(dm[0].RepoTags[0], "@") {
 			return fmt.Sprintf("manifest.json RepoTags %v do not carry the tag %q", dm[0].RepoTags, wantTag)
 		}
 	}
@@ -594,6 +596,9 @@ func runCaseRaw(c Case, tmp string, res *lib.Result) []string {
 		}
 		srcName = "ocidir://" + sd + ":v1"
 	}
+	if c.Pinned && !c.ExpRef {
+		srcName += "@" + g.Root.Digest
+	}
 	srcRef, _ := ref.New(srcName)
 	// ---- export ----
 	var opts []regclient.ImageOpts
@@ -602,9 +607,13 @@ func runCaseRaw(c Case, tmp string, res *lib.Result) []string {
 	}
 	wantTag, wantName := "v1", ""
 	if c.ExpRef {
-		er, _ := ref.New("registry.example.org/other/name:exported")
+		en := "registry.example.org/other/name:exported"
+		if c.Pinned {
+			en += "@" + g.Root.Digest
+		}
+		er, _ := ref.New(en)
 		opts = append(opts, regclient.ImageWithExportRef(er))
-		wantTag, wantName = "exported", "registry.example.org/other/name:exported"
+		wantTag, wantName = "exported", en
 	}
 	var buf bytes.Buffer
 	if err := w.rc.ImageExport(ctx, srcRef, &buf, opts...); err != nil {
@@ -1172,6 +1181,7 @@ func genCase(r *lib.Rand) Case {
 	case k < 30:
 		c.Kind = "rt"
 		c.SrcDir, c.TgtDir, c.Gzip, c.ExpRef = r.Chance(30), r.Chance(35), r.Chance(40), r.Chance(25)
+		c.Pinned = r.Chance(30)
 		c.Sel = lib.Pick(r, []string{"tag", "tag", "digest", "name"})
 		c.Validate = r.Chance(50)
 		c.Stale = r.Chance(25)
